@@ -11,6 +11,7 @@ import (
 	"os/exec"
 	"path/filepath"
 	"regexp"
+	"sort"
 	"strconv"
 	"strings"
 	"time"
@@ -31,11 +32,40 @@ type Result struct {
 	Tail        string // last part of the output, for diagnostics
 	WallS       float64
 	Cmd         string
+	// Actions (only with Opts.Coverage): per named action of the specification, [distinct, generated] successor
+	// states as printed by TLC's -coverage statistics. An action with generated = 0 was never enabled: whatever
+	// the run claims about it is vacuous.
+	Actions map[string][2]int64
+}
+
+// MergeActions adds the action counts of r to dst (several configurations of one machine).
+func MergeActions(dst map[string][2]int64, r *Result) {
+	for k, v := range r.Actions {
+		o := dst[k]
+		dst[k] = [2]int64{o[0] + v[0], o[1] + v[1]}
+	}
+}
+
+// NeverTaken lists the actions of the given modules that generated no state at all.
+func NeverTaken(acts map[string][2]int64, ignore ...string) []string {
+	var out []string
+	for k, v := range acts {
+		skip := false
+		for _, ig := range ignore {
+			skip = skip || strings.HasSuffix(k, "."+ig) || k == ig
+		}
+		if !skip && v[1] == 0 {
+			out = append(out, k)
+		}
+	}
+	sort.Strings(out)
+	return out
 }
 
 var (
 	reStates = regexp.MustCompile(`^(\d+) states generated, (\d+) distinct states found`)
 	reInv    = regexp.MustCompile(`^Error: Invariant (\S+) is violated`)
+	reAct    = regexp.MustCompile(`^<(\w+) line \d+, col \d+ to line \d+, col \d+ of module (\w+)>: (\d+):(\d+)$`)
 )
 
 // SpecDir locates /verif/spec: $VERIF_HOME/spec, ./spec, or next to the executable.
@@ -63,6 +93,7 @@ type Opts struct {
 	Seed     int64
 	HeapGB   int
 	DFS      bool
+	Coverage bool // -coverage 1: Result.Actions is filled
 	// OnPrint, if set, is given every printed value as it arrives; returning true consumes it (it is not
 	// kept in Result.Prints).
 	OnPrint func(string) bool
@@ -113,6 +144,9 @@ func Run(o Opts) (*Result, error) {
 			args = append(args, "-depth", strconv.Itoa(o.Depth))
 		}
 	}
+	if o.Coverage {
+		args = append(args, "-coverage", "1")
+	}
 	if o.Seed != 0 {
 		args = append(args, "-seed", strconv.FormatInt(o.Seed, 10))
 	}
@@ -152,6 +186,21 @@ func Run(o Opts) (*Result, error) {
 		}
 		if m := reInv.FindStringSubmatch(line); m != nil {
 			res.InvViolated = m[1]
+		}
+		if o.Coverage {
+			if m := reAct.FindStringSubmatch(line); m != nil && m[1] != "Init" {
+				if res.Actions == nil {
+					res.Actions = map[string][2]int64{}
+				}
+				d, _ := strconv.ParseInt(m[3], 10, 64)
+				g, _ := strconv.ParseInt(m[4], 10, 64)
+				// the statistics are printed periodically and at the end: the last block wins
+				res.Actions[m[2]+"."+m[1]] = [2]int64{d, g}
+				continue
+			}
+			if strings.HasPrefix(line, "  line ") || strings.HasPrefix(line, "  |") {
+				continue
+			}
 		}
 		if strings.Contains(line, "Postcondition") && strings.Contains(line, "violated") ||
 			strings.Contains(line, "Error: The postcondition") {
